@@ -127,3 +127,37 @@ func verifHarnessC07Rules() {
 	}
 	reach("end")
 }
+
+// ---------- part 3: one rule with two real patterns (no abstraction of Match): the combination is a plain "or" ----------
+
+func verifRealPattern(stars int) (string, []string) {
+	pieces := make([]string, stars+1)
+	pat := ""
+	for i := range pieces {
+		pieces[i] = verifPiece(param("piecelen"))
+		if i > 0 {
+			pat += "*"
+		}
+		pat += pieces[i]
+	}
+	registerSplit(pat, "*", pieces...)
+	return pat, pieces
+}
+
+func verifHarnessC07RuleReal() {
+	p1, pieces1 := verifRealPattern(nondetChoice("stars1", 2))
+	p2, pieces2 := verifRealPattern(nondetChoice("stars2", 2))
+	name := nondetString("name")
+	assume(and(strLenLE(name, param("namelen")), validText(name)))
+	act := Action(nondetString("rule.action"))
+	want := Action(nondetString("want.action"))
+	r := Rule{Action: []Action{act}, Secret: []Secret{Secret(p1), Secret(p2)}}
+
+	got := r.Allow(want, name)
+
+	spec := and(act == want, or(globOracle(name, pieces1...), globOracle(name, pieces2...)))
+	assert("rule-allows-iff-action-listed-and-one-whole-pattern-matches-the-whole-name", got == spec)
+	got2 := Rules{r}.Allow(want, name)
+	assert("rule-set-of-one-agrees", got2 == spec)
+	reach("end")
+}
